@@ -1,162 +1,38 @@
-import GoSquare.Proofs.Builder
-import GoSquare.Properties.C15
-/-! # C06 — worst-case capacity accounting; refusals; side selection
+import GoSquare.Proofs.C06Core
+import GoSquare.Proofs.BuildTotal
+/-! # C06 — capacity accounting never under-counts; greedy building never fails
 
-Proved for EVERY append history (ordinary and blob transactions, accepted and refused, any sizes):
-the running estimate equals the closed-form worst-case rule of what was kept and never exceeds
-maximum squared; an append is refused exactly when the estimate with it would exceed maximum
-squared; a refused append changes nothing but the counter's undo bookkeeping; the square side is the
-least power of two whose area covers the estimate and never exceeds the maximum; the padding
-before any blob never exceeds what was reserved for it. NOT proved in Lean: that `Export` of a
-reachable state never returns one of its defensive errors and that the occupied share count is at
-most the estimate (needs the full layout analysis; decided by the BHIST/BUILDER streams and
-oracles on every run, see evidence). -/
+`Proofs/C06Core.lean` (namespace `GoSquare.C06`): the estimate invariant over every append
+history, refusal iff, refused = observably unchanged, minimal side ≤ max, padding ≤ reservation.
+`Proofs/ExportTotal.lean` / `Proofs/BuildTotal.lean`: none of `Export`'s defensive checks can fire
+on a reachable state (maxSquareSize ≤ 512), the occupied shares never exceed the estimate, and
+`Build` returns no error whenever every blob transaction decodes. -/
 namespace GoSquare.C06
-open GoSquare
+open GoSquare Builder Spec
 
-/-- an append history -/
-inductive Op where
-  | tx (t : Bytes)
-  | btx (t : BlobTx)
+/-- **C06 (greedy building returns no error).** -/
+theorem build_returns_no_error (dec : Bytes → Decoded) (hdec : DecValid dec) (txs : List Bytes)
+    (hall : ∀ t ∈ txs, dec t ≠ .badBlobTx) (max thr : Nat) (ht : 1 ≤ thr)
+    (hcfg : isPowerOfTwo max = true) (hmaxp : Nat.isPowerOfTwo max) (hmax : max ≤ 512) :
+    ∃ sq kept, build dec txs max thr = .ok (sq, kept) :=
+  BuildTotal.build_never_errs dec hdec txs hall max thr ht hcfg hmaxp hmax
 
-def step (b : Builder) : Op → Builder × Bool
-  | .tx t => b.appendTx t
-  | .btx t => b.appendBlobTx t
-
-/-- the builder after a history, and the accepted ordinary / blob transactions in order -/
-def run : List Op → Builder → List Bytes → List BlobTx → Builder × List Bytes × List BlobTx
-  | [], b, n, bl => (b, n, bl)
-  | .tx t :: ops, b, n, bl =>
-    let r := b.appendTx t
-    run ops r.1 (if r.2 then n ++ [t] else n) bl
-  | .btx t :: ops, b, n, bl =>
-    let r := b.appendBlobTx t
-    run ops r.1 n (if r.2 then bl ++ [t] else bl)
-
-/-- **C06 (estimate, every history).** After any append history from a fresh builder the running
-    estimate is the closed-form worst-case rule applied to exactly the accepted transactions, the
-    compact counters hold their total bytes, and the estimate is at most maximum squared. -/
-theorem estimate_invariant : ∀ (ops : List Op) (b : Builder) (n : List Bytes) (bl : List BlobTx), Kept b n bl →
-    Kept (run ops b n bl).1 (run ops b n bl).2.1 (run ops b n bl).2.2 ∧
-    (run ops b n bl).1.thr = b.thr ∧ (run ops b n bl).1.maxSquareSize = b.maxSquareSize
-  | [], b, n, bl, h => ⟨h, rfl, rfl⟩
-  | .tx t :: ops, b, n, bl, h => by
-    obtain ⟨_, hacc, href⟩ := appendTx_spec b n bl t h
-    simp only [run]
-    by_cases ha : (b.appendTx t).2 = true
-    · obtain ⟨hk, ht, hm⟩ := hacc ha
-      rw [ha]; simp only [if_true]
-      obtain ⟨r1, r2, r3⟩ := estimate_invariant ops _ _ _ hk
-      exact ⟨r1, by rw [r2, ht], by rw [r3, hm]⟩
-    · have ha' : (b.appendTx t).2 = false := by simpa using ha
-      obtain ⟨hk, ht, hm, _⟩ := href ha'
-      rw [ha']; simp only [Bool.false_eq_true, if_false]
-      obtain ⟨r1, r2, r3⟩ := estimate_invariant ops _ _ _ hk
-      exact ⟨r1, by rw [r2, ht], by rw [r3, hm]⟩
-  | .btx t :: ops, b, n, bl, h => by
-    obtain ⟨_, hacc, href⟩ := appendBlobTx_spec b n bl t h
-    simp only [run]
-    by_cases ha : (b.appendBlobTx t).2 = true
-    · obtain ⟨hk, ht, hm⟩ := hacc ha
-      rw [ha]; simp only [if_true]
-      obtain ⟨r1, r2, r3⟩ := estimate_invariant ops _ _ _ hk
-      exact ⟨r1, by rw [r2, ht], by rw [r3, hm]⟩
-    · have ha' : (b.appendBlobTx t).2 = false := by simpa using ha
-      obtain ⟨hk, ht, hm, _⟩ := href ha'
-      rw [ha']; simp only [Bool.false_eq_true, if_false]
-      obtain ⟨r1, r2, r3⟩ := estimate_invariant ops _ _ _ hk
-      exact ⟨r1, by rw [r2, ht], by rw [r3, hm]⟩
-
-/-- the estimate of a reachable state never exceeds maximum squared -/
-theorem estimate_le_max_squared (max thr : Nat) (b0 : Builder) (h0 : Builder.new max thr = .ok b0) (ops : List Op) :
-    (run ops b0 [] []).1.currentSize ≤ ((max * max : Nat) : Int) ∧
-    (run ops b0 [] []).1.currentSize =
-      ((closedEstimate thr (run ops b0 [] []).2.1 (run ops b0 [] []).2.2 : Nat) : Int) := by
-  obtain ⟨hk0, ht0, hm0⟩ := kept_new max thr b0 h0
-  obtain ⟨hk, ht, hm⟩ := estimate_invariant ops b0 [] [] hk0
-  have hfit := hk.fit
-  rw [hk.size, ht, ht0] at *
-  rw [hm, hm0] at hfit
-  exact ⟨by exact_mod_cast hfit, rfl⟩
-
-/-- **C06 (refusal rule).** In a reachable state an append is refused exactly when the closed-form
-    estimate with the transaction would exceed maximum squared. -/
-theorem refused_iff (b : Builder) (n : List Bytes) (bl : List BlobTx) (h : Kept b n bl) :
-    (∀ t, (b.appendTx t).2 = false ↔ b.maxSquareSize * b.maxSquareSize < closedEstimate b.thr (n ++ [t]) bl) ∧
-    (∀ t, (b.appendBlobTx t).2 = false ↔ b.maxSquareSize * b.maxSquareSize < closedEstimate b.thr n (bl ++ [t])) := by
-  constructor
-  · intro t
-    obtain ⟨hiff, _, _⟩ := appendTx_spec b n bl t h
-    constructor
-    · intro hf; rcases Nat.lt_or_ge (b.maxSquareSize * b.maxSquareSize) (closedEstimate b.thr (n ++ [t]) bl) with hlt | hge
-      · exact hlt
-      · rw [hiff.mpr hge] at hf; cases hf
-    · intro hlt
-      cases hr : (b.appendTx t).2 with
-      | false => rfl
-      | true => have := hiff.mp hr; omega
-  · intro t
-    obtain ⟨hiff, _, _⟩ := appendBlobTx_spec b n bl t h
-    constructor
-    · intro hf; rcases Nat.lt_or_ge (b.maxSquareSize * b.maxSquareSize) (closedEstimate b.thr n (bl ++ [t])) with hlt | hge
-      · exact hlt
-      · rw [hiff.mpr hge] at hf; cases hf
-    · intro hlt
-      cases hr : (b.appendBlobTx t).2 with
-      | false => rfl
-      | true => have := hiff.mp hr; omega
-
-/-- **C06 (a refused append leaves the builder observably unchanged)** — in ANY state: every field
-    is the same except the compact counter, whose share count and remainder are restored (only
-    its undo fields `last*` differ). -/
-theorem refused_unchanged (b : Builder) :
-    (∀ t, (b.appendTx t).2 = false →
-      (b.appendTx t).1 = { b with txCounter := (b.appendTx t).1.txCounter } ∧
-      (b.appendTx t).1.txCounter.shares = b.txCounter.shares ∧
-      (b.appendTx t).1.txCounter.remainder = b.txCounter.remainder) ∧
-    (∀ t, (b.appendBlobTx t).2 = false →
-      (b.appendBlobTx t).1 = { b with pfbCounter := (b.appendBlobTx t).1.pfbCounter } ∧
-      (b.appendBlobTx t).1.pfbCounter.shares = b.pfbCounter.shares ∧
-      (b.appendBlobTx t).1.pfbCounter.remainder = b.pfbCounter.remainder) := by
-  constructor
-  · intro t hf
-    by_cases hc : ({ b with txCounter := (b.txCounter.add t.length).1 } : Builder).canFit (b.txCounter.add t.length).2 = true
-    · have : (b.appendTx t).2 = true := by simp only [Builder.appendTx, hc, if_true]
-      rw [this] at hf; cases hf
-    · have hr : b.appendTx t = (b.refusedTx t, false) := by
-        simp only [Builder.appendTx, hc, Bool.false_eq_true, if_false, Builder.refusedTx]
-      rw [hr]
-      exact ⟨rfl, by simp [Builder.refusedTx, Counter.revert, Counter.add],
-        by simp [Builder.refusedTx, Counter.revert, Counter.add]⟩
-  · intro t hf
-    by_cases hc : (b.appendBlobTx t).2 = true
-    · rw [hc] at hf; cases hf
-    · have hr : b.appendBlobTx t = (b.refusedBlobTx t, false) := by
-        unfold Builder.appendBlobTx Builder.refusedBlobTx at *
-        simp only at hc ⊢
-        split
-        · rename_i h; simp [h] at hc
-        · rfl
-      rw [hr]
-      exact ⟨rfl, by simp [Builder.refusedBlobTx, Counter.revert, Counter.add],
-        by simp [Builder.refusedBlobTx, Counter.revert, Counter.add]⟩
-
-/-- **C06 (side selection).** The side `Export` chooses for an estimate `e` is the least power of
-    two whose area covers `e`; it never exceeds a power-of-two maximum with `e ≤ max²`. -/
-theorem side_is_minimal_and_bounded (e max : Nat) (he1 : 1 ≤ e) (he : e ≤ 2 ^ 52)
-    (hmax : Nat.isPowerOfTwo max) (hfit : e ≤ max * max) :
-    Nat.isPowerOfTwo (blobMinSquareSize e) ∧ e ≤ blobMinSquareSize e * blobMinSquareSize e ∧
-    (∀ p, Nat.isPowerOfTwo p → e ≤ p * p → blobMinSquareSize e ≤ p) ∧ blobMinSquareSize e ≤ max := by
-  obtain ⟨a, b, c⟩ := C15.minSquare_least e he1 he
-  exact ⟨a, b, c, c max hmax hfit⟩
-
-/-- **C06 (padding never exceeds its reservation).** Aligning the cursor for a blob of `n` shares
-    skips at most `subtree width − 1` shares — exactly the `MaxPadding` reserved for it — whatever
-    the cursor is, i.e. whatever blobs the sort put before it. -/
-theorem padding_within_reservation (cursor n thr : Nat) (hn : 1 ≤ n) (hn52 : n ≤ 2 ^ 52) (ht : 1 ≤ thr) :
-    nextShareIndex cursor n thr - cursor ≤ subTreeWidth n thr - 1 := by
-  have hw := C15.subTreeWidth_pos n thr hn hn52 ht
-  obtain ⟨_, h1, h2⟩ := roundUpByMultipleOf_spec cursor (subTreeWidth n thr) hw
-  unfold nextShareIndex; omega
+/-- **C06 (Export of every reachable state succeeds, and the estimate covers what is occupied).**
+    After ANY history that kept `N` and `B`: `Export` returns a square; it is the closed-form
+    square; the last occupied share index + 1 is at most the estimate, the estimate at most side²,
+    the side at most the maximum; everything after the occupied part is tail padding. -/
+theorem export_within_estimate (b : Builder) (N : List Bytes) (B : List BlobTx) (hk : Kept b N B)
+    (hv : ∀ t ∈ B, ∀ bl ∈ t.blobs, bl.BlobValid) (ht : 1 ≤ b.thr)
+    (hmaxp : Nat.isPowerOfTwo b.maxSquareSize) (hmax : b.maxSquareSize ≤ 512) :
+    ∃ b' sq, b.exportSquare = .ok (b', sq) ∧
+      ((N = [] ∧ B = [] ∧ sq = [paddingShare tailPaddingNamespace 0] ∧ b' = b) ∨
+       (¬ (N = [] ∧ B = []) ∧
+        let ss := blobMinSquareSize (closedEstimate b.thr N B)
+        let occupied := firstIdx b.thr (startOf N B) (sortedElems b.thr B) +
+          (region b.thr (startOf N B) none (sortedElems b.thr B)).length
+        sq = squareOf b.thr N B ss ∧ occupied ≤ closedEstimate b.thr N B ∧
+        closedEstimate b.thr N B ≤ ss * ss ∧ ss ≤ b.maxSquareSize ∧
+        sq.drop occupied = List.replicate (ss * ss - occupied) (paddingShare tailPaddingNamespace 0))) :=
+  ExportTotal.export_succeeds_within_estimate b N B hk hv ht hmaxp hmax
 
 end GoSquare.C06
